@@ -133,6 +133,7 @@ def accesses : List (String × String × String × String) := [
   ("frame", "processor", "W", ""),
   ("service", "CurrentFrame", "R", "snapshot.mu"),
   ("service", "StartSnapshot", "W", "snapshot.mu"),
+  ("service", "frameLoop.bufferFull", "R", "FrameLoop.mu+snapshot.mu"),
   ("service", "frameLoop.currentIndex", "R", "FrameLoop.mu+snapshot.mu"),
   ("service", "frameLoop.frames", "R", "FrameLoop.mu+snapshot.mu"),
   ("service", "headerInfo", "R", ""),
